@@ -180,6 +180,7 @@ func runC06(c *Ctx) {
 		// "confirmed the requested number of times" is judged from the heights the store records; they are those of the
 		// current chain only if a disconnected block's transactions leave it together with the tip stamp (shared with C15-R1)
 		checkCoupledRollback(c, "C06-R1")
+		checkStartupWalk(c, "C06-R1")
 		// confirms(): canonical form
 		if cf := walletFn(c, "C06-R1", "confirms"); cf != nil {
 			okForm := true
